@@ -73,10 +73,18 @@ func replayG(gc *gCase) (*gMismatch, error) {
 	}
 	g := newGate(true)
 	hl := highlight.NewHighlighter(highlight.Config{HasCommand: g.hasCommand})
-	var mm *gMismatch
+	// A text mismatch (the statement of the property) ends the replay and is what is reported; a styling
+	// or notification mismatch (conformance to the specification beyond the statement) is remembered,
+	// the replay goes on looking for a text mismatch, comparing texts only from there on.
+	var mm, soft *gMismatch
 	fail := func(i int, key, format string, a ...any) {
-		if mm == nil {
-			mm = &gMismatch{key: key, what: fmt.Sprintf("step %d %s(%d,%s): ", i+1, gc.Steps[i].Op, gc.Steps[i].Code, gc.Steps[i].Mode) + fmt.Sprintf(format, a...), at: i}
+		m := &gMismatch{key: key, what: fmt.Sprintf("step %d %s(%d,%s): ", i+1, gc.Steps[i].Op, gc.Steps[i].Code, gc.Steps[i].Mode) + fmt.Sprintf(format, a...), at: i}
+		if key == "g:text" {
+			if mm == nil {
+				mm = m
+			}
+		} else if soft == nil {
+			soft = m
 		}
 	}
 	var infra error
@@ -94,7 +102,7 @@ func replayG(gc *gCase) (*gMismatch, error) {
 			plain := plainOf(text)
 			if plain != gc.Codes[st.Of] {
 				fail(i, "g:text", "Get(%s) returned a text consisting of %s; the specification prescribes the text of code %d = %s", short(gc.Codes[st.Code]), short(plain), st.Of, short(gc.Codes[st.Of]))
-			} else {
+			} else if soft == nil {
 				want := 0
 				if st.Late {
 					want = 1
@@ -113,12 +121,14 @@ func replayG(gc *gCase) (*gMismatch, error) {
 					infra = lib.Infra("step %d: no new parked late computation to claim", i+1)
 				}
 			}
-			if p != st.Infl && mm == nil && infra == nil {
+			if p != st.Infl && mm == nil && soft == nil && infra == nil {
 				infra = lib.Infra("step %d get(%d,%s): %d late computations are parked, the model has %d in flight: the internal shape (cache hit/miss, when HasCommand is consulted) differs from Highlighter.tla -- re-examine the specification; this is not a verdict", i+1, st.Code, st.Mode, p, st.Infl)
 			}
 		case "deliver":
 			if !g.releaseCode(st.Code) {
-				infra = lib.Infra("step %d: no parked late computation for code %d", i+1, st.Code)
+				if soft == nil {
+					infra = lib.Infra("step %d: no parked late computation for code %d", i+1, st.Code)
+				}
 				break
 			}
 			if _, err := g.settle(); err != nil {
@@ -128,7 +138,9 @@ func replayG(gc *gCase) (*gMismatch, error) {
 			select {
 			case <-hl.LateUpdates():
 			default:
-				fail(i, "g:notify", "no notification on LateUpdates() where the specification has one pending")
+				if soft == nil {
+					fail(i, "g:notify", "no notification on LateUpdates() where the specification has one pending")
+				}
 			}
 		case "inv":
 			hl.InvalidateCache()
@@ -138,10 +150,12 @@ func replayG(gc *gCase) (*gMismatch, error) {
 		if infra != nil || mm != nil {
 			break
 		}
-		if n := len(hl.LateUpdates()); n != st.Lates {
+		if n := len(hl.LateUpdates()); n != st.Lates && soft == nil {
 			fail(i, "g:notify", "%d notifications pending on LateUpdates(), the specification prescribes %d", n, st.Lates)
-			break
 		}
+	}
+	if mm == nil {
+		mm = soft
 	}
 	if err := g.releaseAll(); err != nil && infra == nil {
 		infra = err
